@@ -616,6 +616,9 @@ def test_namespaces():
     check_ns('copy-of-ns', st3, src, [0, 2], {'s': 'urn:s', '': 'urn:sd'}, full=True)
     check_ns('copy-of-ns-child', st3, src, [0, 2, 0], {'s': 'urn:s', '': 'urn:sd', 't': 'urn:t'}, full=True)
     check_ns('copy-ns', st3, src, [0, 3], {'s': 'urn:s', '': 'urn:sd'}, full=True)
+    # copying namespace nodes themselves
+    check_ns('copy-of-nsnode', T('/', '<o><xsl:copy-of select="*/namespace::s"/><xsl:for-each select="*/*/namespace::t"><xsl:copy/></xsl:for-each></o>'),
+             src, [0], {'s': 'urn:s', 't': 'urn:t'})
     # exclude-result-prefixes
     st4 = sheet(T('/', '<o xmlns:c="urn:c"><i xsl:exclude-result-prefixes="b c"><j/></i><k/></o>'),
                 'xmlns:a="urn:a" xmlns:b="urn:b" xmlns="urn:dd" exclude-result-prefixes="a #default"')
@@ -699,6 +702,10 @@ def test_whitespace():
     check('ws-stylesheet', T('/', ' <o> <xsl:text> </xsl:text> <i/>\n</o> '), '<x/>', '<o> <i/></o>')
     check('ws-stylesheet-preserve', T('/', '<o xml:space="preserve"> <i xml:space="default"> <j/> </i> <xsl:value-of select="1"/></o>'), '<x/>',
           '<o xml:space="preserve"> <i xml:space="default"><j/></i> 1</o>')
+    check_error('ws-preserved-in-choose', XSLTUnsupported, T('/', '<xsl:choose xml:space="preserve"> <xsl:when test="1">x</xsl:when></xsl:choose>'))
+    check_error('ws-preserved-before-param', XSLTUnsupported, '<xsl:template match="/" xml:space="preserve"> <xsl:param name="p"/></xsl:template>')
+    check_error('ws-preserved-in-value-of', XSLTUnsupported, T('/', '<xsl:value-of select="1" xml:space="preserve"> </xsl:value-of>'))
+    check_error('text-in-choose', XSLTStaticError, T('/', '<xsl:choose>x<xsl:when test="1">x</xsl:when></xsl:choose>'))
     check('ws-stylesheet-nonws', T('/', '<o> a <i/> </o>'), '<x/>', '<o> a <i/></o>')
     check('ws-stylesheet-comment-split', T('/', '<o> <!-- c -->x</o>'), '<x/>', '<o>x</o>')
     check('ws-stylesheet-charref', T('/', '<o>&#32;<i/>&#160;</o>'), '<x/>', '<o><i/>&#160;</o>')
